@@ -4,14 +4,15 @@
 
   Every statement is for all hit lists (any length, equal starts, equal scores, nested and chained
   overlaps, duplicates), all profile-length tables and both modes of `refine_hmmscan_results`.
-  The model is the code with fixes D11, D22, D25, D26, D32 applied (see design/C13.md).
+  The model is the code with fixes D11, D22, D25, D26, D32, D61, D62 applied (see design/C13.md).
 -/
 import ASV.Proofs.RefineCover
 import ASV.Proofs.RefineIncomplete
 import ASV.Proofs.HitFilterMultiple
 import ASV.Proofs.HitFilterEquiv
+import ASV.Proofs.HitCallers
 namespace ASV.C13
-open ASV ASV.Refine ASV.HitFilter
+open ASV ASV.Refine ASV.HitFilter ASV.HitCallers
 
 /-! ## refinement (`hmmscan_refinement.refine_hmmscan_results`, one protein) -/
 
@@ -44,84 +45,68 @@ theorem refine_provenance (env : Env) (nb : Bool) (l : List Hit) :
   obtain ⟨F, hF, hm⟩ := refine_from env nb l o ho
   exact ⟨F, hF, isMergeOf_of env hm⟩
 
-/-- the full sentence "no two returned hits overlap by more than 20 % of the longer profile" -/
-def NoExcessOverlap : Prop :=
-  ∀ (env : Env) (nb : Bool) (l : List Hit), noExcessOverlap env (refine env nb l) = true
+/-- **no two returned hits overlap by more than the allowed margin** (fix D61; was the open finding
+    KF-C13-greedy-overlap): any two returned hits `a` before `b` satisfy
+    `b.start ≥ a.end − 0.2·max(len a, len b)` — the code's strong form, measured to the end of the
+    earlier hit — for every input, in both modes … -/
+theorem refine_starts_clear (env : Env) (nb : Bool) (l : List Hit) : allStartClear env (refine env nb l) = true := by
+  simp only [allStartClear, pairwiseB_iff]
+  exact refine_startClear env nb l
 
-/-- it is false for the greedy pass (D12, KF-C13-greedy-overlap): profiles of length 100, 300, 100;
-    `[0,100)`/50 and `[60,160)`/20 are both returned although they share 40 > 20 residues -/
-theorem noExcessOverlap_fails : ¬ NoExcessOverlap := by
-  intro h
-  have := h { len := fun p => if p = 1 then 300 else 100 } false
-    [⟨0, 0, 100, 1, 500⟩, ⟨1, 50, 300, 1, 100⟩, ⟨2, 60, 160, 1, 200⟩]
-  revert this
-  decide
+/-- … and therefore in the property's form: they share at most 20 % of the longer profile -/
+theorem refine_no_excess_overlap (env : Env) (nb : Bool) (l : List Hit) :
+    noExcessOverlap env (refine env nb l) = true := by
+  simp only [noExcessOverlap, pairwiseB_iff]
+  exact (refine_startClear env nb l).imp (fun h => withinMargin_of_startsClear env _ _ h)
 
-/-- what holds for every input: any two returned hits `a` before `b` satisfy
-    `b.start ≥ a.end − 0.2·M` for any `M` bounding the profile lengths of the input hits
-    (in particular they share at most 20 % of the longest profile involved) -/
+/-- corollary kept from the first round: one margin for every pair, the longest profile involved -/
 theorem refine_margin_longest_profile (env : Env) (nb : Bool) (l : List Hit) (m5 : Int)
     (hl : ∀ h ∈ l, env.len h.prof ≤ m5) : allStartClearBy m5 (refine env nb l) = true :=
   (allStartClearBy_iff _ _).mpr (refine_clearBy env nb m5 l hl)
 
-/-- H: all input hits belong to profiles of one length.  Then the exact rule holds between *any*
-    two returned hits, in the code's strong form (measured to the end of the earlier hit) … -/
-theorem refine_starts_clear_partial (env : Env) (nb : Bool) (l : List Hit) (len : Int)
-    (hl : ∀ h ∈ l, env.len h.prof = len) : allStartClear env (refine env nb l) = true := by
-  simp only [allStartClear, pairwiseB_iff]
-  exact refine_startClear_uniform env nb len l hl
+/-! ## the overlap pass (`_remove_overlapping`, fix D61) -/
 
-/-- … and therefore in the property's form -/
-theorem refine_no_excess_overlap_partial (env : Env) (nb : Bool) (l : List Hit) (len : Int)
-    (hl : ∀ h ∈ l, env.len h.prof = len) : noExcessOverlap env (refine env nb l) = true := by
-  simp only [noExcessOverlap, pairwiseB_iff]
-  exact (refine_startClear_uniform env nb len l hl).imp (fun h => withinMargin_of_startsClear env _ _ h)
-
-/-! ## the greedy overlap pass (`_remove_overlapping`) -/
-
-/-- the pass only selects: its result is a sub-list of its input -/
+/-- the pass only selects: its result is a sub-list of its input (input order kept) -/
 theorem removeOverlapping_selects (env : Env) (l : List Hit) : (removeOverlapping env l).Sublist l :=
   removeOverlapping_sublist env l
 
-/-- a non-empty input (the only kind `refine` passes) never yields an empty result -/
+/-- a non-empty input never yields an empty result (the best-ranked result is always kept) -/
 theorem removeOverlapping_nonempty (env : Env) (l : List Hit) (h : l ≠ []) : removeOverlapping env l ≠ [] :=
   removeOverlapping_ne_nil env h
 
-/-- the literal sentence "a hit is dropped only if a returned hit that collides with it ranks at
-    least as high" -/
-def DroppedOnlyAgainstKept : Prop :=
-  ∀ (env : Env) (l : List Hit), sortedByStart l = true → droppedJustified env l (removeOverlapping env l) = true
+/-- for *any* input list: in the order returned, no result collides with a later one -/
+theorem removeOverlapping_separates (env : Env) (l : List Hit) : allStartClear env (removeOverlapping env l) = true := by
+  simp only [allStartClear, pairwiseB_iff]
+  exact removeOverlapping_no_conflict env l
 
-/-- false for the greedy pass (KF-C13-greedy-orphan): `[10,20)` loses to `[0,100)`, which is then
-    replaced by the better `[70,200)` — which does not touch `[10,20)` -/
-theorem droppedOnlyAgainstKept_fails : ¬ DroppedOnlyAgainstKept := by
-  intro h
-  have := h { len := fun _ => 100 } [⟨0, 0, 100, 1, 500⟩, ⟨1, 10, 20, 1, 100⟩, ⟨3, 70, 200, 1, 600⟩] (by decide)
-  revert this
-  decide
+/-- **a hit is dropped only if a better-ranked overlapping hit is kept** (was the open finding
+    KF-C13-greedy-orphan), with the tie rule the code implements: the kept hit has the higher score,
+    or the same score and the earlier position in the (position-sorted) input -/
+theorem removeOverlapping_dropped_against_kept (env : Env) (l : List Hit) (hs : sortedByStart l = true) : ∀ d ∈ l,
+    d ∈ removeOverlapping env l ∨
+      ∃ k ∈ removeOverlapping env l, collide env k d = true ∧ RanksAbove l k d :=
+  removeOverlapping_justified env ((sortedByStart_iff l).mp hs)
 
-/-- what holds for every input: a dropped hit lost a collision against a hit scoring at least as
-    high, which is returned or lost in the same way, …, ending at a returned hit -/
-theorem removeOverlapping_dropped_chain (env : Env) (l : List Hit) : ∀ d ∈ l,
-    d ∈ removeOverlapping env l ∨ ∃ k ∈ removeOverlapping env l, Dominated env d k ∧ d.sc ≤ k.sc := by
-  intro d hd
-  rcases removeOverlapping_dominated env l d hd with h | ⟨k, hk, hdom⟩
-  · exact Or.inl h
-  · exact Or.inr ⟨k, hk, hdom, hdom.score_le⟩
+/-- the same as the executable relation the harness evaluates on the real function's output -/
+theorem removeOverlapping_dropped_justified (env : Env) (l : List Hit) (hs : sortedByStart l = true) :
+    droppedJustified env l (removeOverlapping env l) = true :=
+  droppedJustified_removeOverlapping env ((sortedByStart_iff l).mp hs)
 
 /-! ## why a hit is missing from the result -/
 
-/-- every input hit is accounted for before the incomplete-fragment rule: it lies inside a
-    same-profile hit `m` (itself or the merge it went into, with at least its score) that reaches
-    that rule, or `m` lost a chain of collisions ending in a hit that reaches it (neighbour mode:
-    inside a merged hit that reaches it) -/
+/-- every input hit is accounted for before the incomplete-fragment rule.  Default mode: it lies
+    inside a same-profile hit `m` (itself or the merge it went into, with at least its score and at
+    most its e-value) that reaches that rule, or `m` collides with a hit `k` scoring at least as
+    high that reaches it.  Neighbour mode: the raw hit lies inside a merged hit that reaches the
+    rule, or collides with a raw hit `k` scoring at least as high that lies inside one -/
 theorem refine_accounts_for_every_hit (env : Env) (nb : Bool) (l : List Hit) : ∀ x ∈ l,
     (∃ m ∈ beforeIncomplete env nb l, covers m x = true) ∨
-    (∃ m k, covers m x = true ∧ Dominated env m k ∧ ∃ o ∈ beforeIncomplete env nb l, covers o k = true) := by
+    (∃ m k, covers m x = true ∧ collide env k m = true ∧ m.sc ≤ k.sc ∧
+      ∃ o ∈ beforeIncomplete env nb l, covers o k = true) := by
   intro x hx
-  rcases beforeIncomplete_accounts env nb l x hx with ⟨m, hm, hc⟩ | ⟨m, k, hc, hd, o, ho, hco⟩
+  rcases beforeIncomplete_accounts env nb l x hx with ⟨m, hm, hc⟩ | ⟨m, k, hc, hcl, hsc, o, ho, hco⟩
   · exact Or.inl ⟨m, hm, (covers_iff m x).mpr hc⟩
-  · exact Or.inr ⟨m, k, (covers_iff m x).mpr hc, hd, o, ho, (covers_iff o k).mpr hco⟩
+  · exact Or.inr ⟨m, k, (covers_iff m x).mpr hc, hcl, hsc, o, ho, (covers_iff o k).mpr hco⟩
 
 /-- … and the last stage is exactly the documented rule: all hits covering more than half of
     their profile if there is one; else the first hit with the largest share if that exceeds a
@@ -224,6 +209,13 @@ theorem hmmer_errors (cut : Int → Option Int) (limit : Int) :
       | some v => rfl
     simp [HitFilter.removeOverlapping, this, hs]
 
+/-- the ranking has no ties between different hits: two hits that rank each other at least as
+    high are the same hit (same identifier, start, end, score), so "the best" is well defined -/
+theorem hmmer_rank_ties_are_equal_hits (c : Int → Int) (a b : HHit) (ha : 0 < a.sc ∧ 0 < c a.ident)
+    (h1 : ranksAtLeast c a b = true) (h2 : ranksAtLeast c b a = true) : a = b := by
+  rw [← rankLe_iff_ranksAtLeast] at h1 h2
+  exact rankLe_antisymm c a b ha h1 h2
+
 /-! ## `filter_result_multiple`: one hit per profile and gene -/
 
 /-- a hit is reported exactly when it scores above −1 and is the earliest best-scoring hit of
@@ -311,9 +303,60 @@ theorem equivalence_best_per_group (eqs : List (List Int)) (hits out : List FHit
   · simp only [Option.some.injEq] at h; subst h
     exact foldl_filterPass_separated eqs hits hu g hg hq
 
-/-- the strictly best-scoring hit of the gene always survives (so the code's
-    `assert results_by_id[cds]` cannot fail when scores are distinct) -/
-theorem equivalence_best_survives (eqs : List (List Int)) (hits : List FHit) (hu : UidInj hits) (t : FHit)
+/-- **the single best hit of each overlapping group survives** (fix D62), with the tie rule: in a
+    competition that runs (≥ 2 profiles of the equivalence group hit the gene) a hit survives exactly
+    when no hit of its overlapping group — the hits `Linked` to it through chains of > 20-residue
+    overlaps — is preferred to it: a higher bitscore, or the same bitscore and an earlier place in the
+    gene's hit list (`prefers`) -/
+theorem equivalence_one_competition (hits : List FHit) (eq : List Int) (hu : UidNodup hits)
+    (hq : qualifies eq hits = true) (h : FHit) :
+    h ∈ filterPass hits eq ↔ h ∈ hits ∧ ∀ o ∈ hits, Linked hits h o → prefers hits o h = false := by
+  apply filterPass_mem_iff hits eq hu
+  have h1 := (qualifies_iff eq hits).mp hq
+  have h2 := specCount_le_presentCount eq (out := hits) (L := hits) (fun _ hx => hx)
+  unfold presentCount at h2
+  omega
+
+/-- the groups the code forms are exactly the overlapping groups: pairwise disjoint, two hits of one
+    group are `Linked`, and two different `Linked` hits are in one group -/
+theorem equivalence_groups_are_components (hits : List FHit) :
+    (overlappingGroups hits).Pairwise (fun g1 g2 => ∀ x ∈ g1, x ∉ g2) ∧
+    (∀ g ∈ overlappingGroups hits, ∀ x ∈ g, ∀ y ∈ g, Linked hits x y) ∧
+    (∀ x y, Linked hits x y → x = y ∨ ∃ g ∈ overlappingGroups hits, x ∈ g ∧ y ∈ g) := by
+  have inv := overlappingGroups_inv hits
+  exact ⟨inv.disj, fun g hg x hx y hy => linked_iff_eqv.mpr (inv.sound g hg x hx y hy),
+    fun x y hl => inv.of_eqv (linked_iff_eqv.mp hl)⟩
+
+/-- the first of the best-scoring hits of the gene survives every competition … -/
+theorem equivalence_first_best_survives (eqs : List (List Int)) (hits : List FHit) (hu : UidNodup hits) (t : FHit)
+    (l1 l2 : List FHit) (e : hits = l1 ++ t :: l2) (h1 : ∀ o ∈ l1, o.sc < t.sc) (h2 : ∀ o ∈ l2, o.sc ≤ t.sc) :
+    ∃ out, filterResults eqs hits = some out ∧ t ∈ out := by
+  have hmem := foldl_filterPass_keeps_first_best eqs hits hu t l1 l2 e h1 h2
+  refine ⟨eqs.foldl filterPass hits, ?_, hmem⟩
+  simp only [filterResults]
+  have : (eqs.foldl filterPass hits).isEmpty = false := by
+    cases hh : eqs.foldl filterPass hits with
+    | nil => rw [hh] at hmem; simp at hmem
+    | cons a l => rfl
+  simp [this]
+
+/-- … so the code's `assert results_by_id[cds]` can never fail, ties or not -/
+theorem equivalence_never_empties_a_gene (eqs : List (List Int)) (hits : List FHit) (hu : UidNodup hits) :
+    ∃ out, filterResults eqs hits = some out ∧ (hits ≠ [] → out ≠ []) := by
+  cases hits with
+  | nil => exact ⟨eqs.foldl filterPass [], by simp [filterResults], fun h => absurd rfl h⟩
+  | cons b l =>
+    have hne := foldl_filterPass_ne_nil eqs (b :: l) hu (by simp)
+    refine ⟨eqs.foldl filterPass (b :: l), ?_, fun _ => hne⟩
+    simp only [filterResults]
+    have : (eqs.foldl filterPass (b :: l)).isEmpty = false := by
+      cases hh : eqs.foldl filterPass (b :: l) with
+      | nil => exact absurd hh hne
+      | cons a t => rfl
+    simp [this]
+
+/-- the strictly best-scoring hit always survives (first-round statement, a special case) -/
+theorem equivalence_best_survives (eqs : List (List Int)) (hits : List FHit) (hu : UidNodup hits) (t : FHit)
     (ht : t ∈ hits) (hmax : ∀ o ∈ hits, o ≠ t → o.sc < t.sc) :
     ∃ out, filterResults eqs hits = some out ∧ t ∈ out := by
   have hmem := foldl_filterPass_keeps_best eqs hits hu t ht hmax
@@ -325,23 +368,30 @@ theorem equivalence_best_survives (eqs : List (List Int)) (hits : List FHit) (hu
     | cons a l => rfl
   simp [this]
 
+/-- **order independence of the competition**: when no two different hits of the gene tie in
+    bitscore, the survivors are the same hits for every ordering of the gene's hit list (with ties the
+    earlier hit wins, theorem `equivalence_one_competition`) -/
+theorem equivalence_order_independent (eqs : List (List Int)) (l₁ l₂ : List FHit) (hp : l₁.Perm l₂)
+    (hu : UidNodup l₁) (hn : NoTies l₁) : (eqs.foldl filterPass l₁).Perm (eqs.foldl filterPass l₂) :=
+  foldl_filterPass_perm eqs hp hu hn
+
 /-- a gene hit by fewer than two profiles of every equivalence group keeps all its hits -/
 theorem equivalence_untouched (eqs : List (List Int)) (hits : List FHit)
     (hq : ∀ g ∈ eqs, qualifies g hits = false) : filterResults eqs hits = some hits := by
   simp only [filterResults, foldl_filterPass_untouched eqs hits hq]
   cases hits <;> simp
 
-/-- the groups are formed without transitive closure: `a`–`d`–`e`–`c`–`b` is one chain of
-    pairwise overlaps (a single connected component), yet two groups result; `a` is the best of
-    one, `b` of the other, and both survive (they do not overlap each other) -/
-theorem equivalence_groups_not_transitive :
+/-- the first round's witness of non-transitive groups (`a`–`d`–`e`–`c`–`b` is one chain of pairwise
+    overlaps): the chain is now one group and only its best hit survives, in every order of the list -/
+theorem equivalence_chain_is_one_group :
     let a : FHit := ⟨0, 0, 0, 100, 700⟩
     let b : FHit := ⟨1, 1, 250, 300, 900⟩
     let c : FHit := ⟨2, 2, 175, 275, 300⟩
     let d : FHit := ⟨3, 3, 75, 175, 600⟩
     let e : FHit := ⟨4, 4, 150, 250, 100⟩
-    overlappingGroups [a, b, c, d, e] = [[a, d, e, c], [b, c, e, d]] ∧
-    filterResults [[0, 1]] [a, b, c, d, e] = some [a, b] := by decide
+    overlappingGroups [a, b, c, d, e] = [[e, d, c, b, a]] ∧
+    filterResults [[0, 1]] [a, b, c, d, e] = some [b] ∧
+    filterResults [[0, 1]] [e, d, c, b, a] = some [b] := by decide
 
 /-- the passes over a whole record (groups outermost, genes inside, as the code loops) give every gene
     exactly what it would get alone: no gene's result depends on the hits of any other gene -/
@@ -371,6 +421,52 @@ theorem equivalence_filter_record (eqs : List (List Int)) (genes : List (List FH
       split at ih
       · next h2 => rw [if_pos h2, ← ih]; simp
       · next h2 => rw [if_neg h2, ← ih]; simp
+
+/-! ## the callers, end to end for one gene: functions of the (multi)set of raw hits -/
+
+/-- `cluster_prediction.find_hmmer_hits` (cut-off → `filter_results` → `filter_result_multiple` →
+    start order): for distinct HSP objects the call never fails, and if no two different raw hits of
+    the gene tie in bitscore the gene's hits are the same multiset for every ordering of the raw list
+    (with ties the earlier raw hit wins, see `equivalence_one_competition`, `multiple_best_per_profile`) -/
+theorem find_hmmer_hits_gene_order_independent (cut : Int → Int) (eqs : List (List Int)) (r₁ r₂ : List FHit)
+    (h : r₁.Perm r₂) (hu : UidNodup r₁) (hn : NoTies r₁) :
+    ∃ o₁ o₂, findHmmerHitsGene cut eqs r₁ = some o₁ ∧ findHmmerHitsGene cut eqs r₂ = some o₂ ∧ o₁.Perm o₂ :=
+  findHmmerHitsGene_perm cut eqs h hu hn
+
+/-- what it returns for a gene: raw hits strictly above their signature's cut-off (and above −1),
+    at most one per profile, ordered by start -/
+theorem find_hmmer_hits_gene_sound (cut : Int → Int) (eqs : List (List Int)) (raw out : List FHit)
+    (h : findHmmerHitsGene cut eqs raw = some out) :
+    (∀ x ∈ out, x ∈ raw ∧ cut x.prof < x.sc ∧ -10 < x.sc) ∧
+    (∀ x ∈ out, ∀ y ∈ out, x.prof = y.prof → x = y) ∧
+    out.Pairwise (fun a b => a.hs ≤ b.hs) :=
+  findHmmerHitsGene_sound cut eqs raw out h
+
+/-- `hmmer.run_hmmer` (score / e-value cut of `build_hits`, then `remove_overlapping`): the locus'
+    hits do not depend on the order of the hmmscan results -/
+theorem run_hmmer_gene_perm_invariant (cut : Int → Option Int) (minScore maxEvalue : Int) (r₁ r₂ : List RawHmm)
+    (h : r₁.Perm r₂) (out : List HHit) (h1 : runHmmerGene cut minScore maxEvalue r₁ = .ok out) :
+    runHmmerGene cut minScore maxEvalue r₂ = .ok out :=
+  runHmmerGene_perm cut minScore maxEvalue h out h1
+
+/-- `domain_identification.find_domains` / `find_ab_motifs`: a function of the gene's hit *set* -/
+theorem find_domains_enumeration_invariant (env : Env) (L : Int) (r₁ r₂ : List Hit) (h : ∀ x, x ∈ r₁ ↔ x ∈ r₂) :
+    findDomainsGene env L r₁ = findDomainsGene env L r₂ ∧ findAbMotifsGene env r₁ = findAbMotifsGene env r₂ :=
+  ⟨findDomainsGene_same_set env L h, refine_enumeration_invariant env true r₁ r₂ h⟩
+
+/-- `domain_identification.find_subtypes`: for given domains of the gene, a function of the set of
+    raw sub-type hits … -/
+theorem find_subtypes_enumeration_invariant (env : Env) (target : Int) (strip : Int → Int) (existing r₁ r₂ : List Hit)
+    (h : ∀ x, x ∈ r₁ ↔ x ∈ r₂) :
+    findSubtypesGene env target strip existing r₁ = findSubtypesGene env target strip existing r₂ :=
+  findSubtypesGene_same_set env target strip existing h
+
+/-- … and every sub-type hit attached to a domain overlaps that domain (`add_internal_hits` cannot
+    raise) and is a refined hit of the gene, renamed by the callback -/
+theorem find_subtypes_hits_overlap_parent (env : Env) (strip : Int → Int) (raw : List Hit) (d : Hit) :
+    ∀ s ∈ subtypeHits env strip raw d,
+      overlapsWith s d = true ∧ ∃ h ∈ refine env true raw, s = { h with prof := strip h.prof } :=
+  subtypeHits_overlap env strip raw d
 
 /-! ## docking domains -/
 
@@ -423,10 +519,16 @@ example : removeIncomplete exEnv [⟨0, 0, 33, 1, 10⟩] = [] := by decide
 example : mergeDomainList exEnv [⟨0, 0, 90, 1, 10⟩, ⟨0, 300, 390, 1, 10⟩] =
     [⟨0, 0, 90, 1, 10⟩, ⟨0, 300, 390, 1, 10⟩] := by decide
 example : mergeDomainList exEnv [⟨0, 0, 100, 2, 500⟩, ⟨0, 10, 50, 1, 600⟩] = [⟨0, 0, 100, 1, 600⟩] := by decide
-/-- a domination chain of length two (the orphan witness) -/
-example : Dominated { len := fun _ => 100 } ⟨1, 10, 20, 1, 100⟩ ⟨3, 70, 200, 1, 600⟩ :=
-  .trans (m := ⟨0, 0, 100, 1, 500⟩) (by decide) (.step (by decide))
-
+/-- the former findings' witnesses (D12, the orphan): `[0,100)`/50 and `[60,160)`/20 no longer both
+    survive; `[10,20)` is no longer lost to a hit that is itself replaced; equal scores: the earlier wins -/
+example : removeOverlapping { len := fun p => if p = 1 then 300 else 100 }
+    [⟨0, 0, 100, 1, 500⟩, ⟨1, 50, 300, 1, 100⟩, ⟨2, 60, 160, 1, 200⟩] =
+    [⟨0, 0, 100, 1, 500⟩, ⟨1, 50, 300, 1, 100⟩] := by decide
+example : removeOverlapping { len := fun _ => 100 }
+    [⟨0, 0, 100, 1, 500⟩, ⟨1, 10, 20, 1, 100⟩, ⟨3, 70, 200, 1, 600⟩] =
+    [⟨1, 10, 20, 1, 100⟩, ⟨3, 70, 200, 1, 600⟩] := by decide
+example : removeOverlapping { len := fun _ => 100 } [⟨0, 0, 100, 1, 500⟩, ⟨1, 50, 150, 1, 500⟩, ⟨2, 100, 200, 1, 500⟩] =
+    [⟨0, 0, 100, 1, 500⟩, ⟨2, 100, 200, 1, 500⟩] := by decide
 /-- hmmer: the short first hit is returned once (D25); equal starts come out in one order whatever
     the input order (D26) -/
 example : (HitFilter.removeOverlapping (fun _ => some 20) 10 [⟨0, 0, 5, 40⟩, ⟨1, 20, 60, 40⟩]).toOption =
